@@ -52,12 +52,17 @@ SECURITY_FNS = ["has_permission", "apply_if_auth", "apply_to_database_name_if_ha
 
 PROPS = {
     "C01": dict(
-        units=["store"],
+        units=["store", "listing"],
         kani=[K_PATTERN_CHOICE],
-        undecided=["`keys` listing: the filter closure inside Database::list_keys (iterator adapters) is not verified",
-                   "parser / dispatcher glue between the command line and these functions"],
+        undecided=["parser / dispatcher glue between the command line and these functions",
+                   "`keys`: String's ordering (the meaning of 'sorted') is an uninterpreted total order; the Keys arm of the dispatcher (which list_system_keys flag it passes) is "
+                   "covered by the bounded sweep only"],
         assumptions=["Display for Value prints its value field (trusted axiom; impl at bo.rs is compiled but not verified)",
-                     "i32 <-> text conversions are uninterpreted with parse(print(n)) == Some(n)"],
+                     "i32 <-> text conversions are uninterpreted with parse(print(n)) == Some(n)",
+                     "unit listing: `map.iter().filter(F).map(G).collect()` is replaced by a trusted shim (R11: every entry visited exactly once, F's and G's own contracts decide "
+                     "what is kept and produced - the closure bodies are the real ones and are verified); Vec::sort is a permutation that sorts; str::starts_with / ends_with / "
+                     "contains / replace(\"*\", \"\") are prefix / suffix / substring tests and star removal (trusted shims)",
+                     "unit listing: the fn pointers returned by get_function_by_pattern are defunctionalised (R12: three tags and a match that calls the three real functions)"],
     ),
     "C02": dict(
         units=["store", "consensus"],
@@ -82,13 +87,14 @@ PROPS = {
                      "AtomicUsize::fetch_add is modelled as a wrapping add on a plain usize"],
     ),
     "C08": dict(
-        units=["security", "store", "dispatch"],
+        units=["security", "store", "dispatch", "listing"],
         kani=[K_FILTER],
         undecided=["handlers that do not go through apply_if_safe_access: the Resolve, Arbiter and rp (ReplicateRequest) arms of the dispatcher "
                    "- a non-admin `resolve ... $$token ...` is outside every contract here (the six keyed data arms get / get-safe / watch / set / increment / "
                    "remove ARE verified to pass their key through the guard, unit dispatch)",
                    "two-run noninterference is reduced to: the guarded closure is not callable and the reply is an error",
-                   "Database::list_keys's filter closure (iterator pipeline) is not verified; only filter_system_keys itself (Kani, bounded)"],
+                   "which list_system_keys flag the Keys arm of the dispatcher passes to Database::list_keys (the listing itself, filter closure included, is verified in unit "
+                   "listing: C08.listing-hides-secure)"],
         assumptions=["str::starts_with is a prefix test (trusted shim)",
                      "closures: `opp` may be called only where its precondition is provable; the caller contract makes that precondition available only when "
                      "the session may access the key"],
@@ -116,11 +122,12 @@ PROPS = {
                      "every finite character sequence is the text of some String (axiom_string_exists)"],
     ),
     "C13": dict(
-        units=["consensus", "store"],
-        undecided=["order across several queued writes beyond one step, arbiter reconnects (register_arbiter's re-delivery loop is not under contract)",
+        units=["consensus", "store", "listing"],
+        undecided=["order across several queued writes beyond one step; arbiter disconnects (unwatch-all leaves an empty watcher list under $conflicts)",
                    "primary/secondary forwarding of resolve, replicas holding the resolved value",
-                   "which $conflicts_ keys the listing returns (Database::list_keys is an iterator pipeline: trusted spec)"],
-        assumptions=["list_conflicts_keys / has_pendding_conflict are trusted (uninterpreted listing; every listed key is in the map)",
+                   "that the notice key (format! of key and op id) sorts in the order the conflicts were recorded; a conflicted key whose name ends with `*` or contains "
+                   "`$conflicts_` (the queue of a key is found by pattern matching over all keys)"],
+        assumptions=["list_conflicts_keys / has_pendding_conflict are external in unit consensus with exactly the contracts proved for their real bodies in unit listing",
                      "send_message_to_arbiter_client is trusted to hand exactly one message to the watchers of $conflicts",
                      "texts built with format! are uninterpreted; trusted: the notice key differs from the conflicted key, a notice does not start with "
                      "'resolved', 'resolved <v>' does"],
@@ -208,8 +215,9 @@ PROPS = {
         assumptions=["Change::new stamps the resolving change with the wall clock (any u64)"],
     ),
     "C10": dict(
-        units=["store", "consensus", "security", "ids", "oplog", "pending", "parser", "sessions", "http", "election", "snapshot", "sync"],
-        reachable={"sync": ["make_create_db_command", "get_full_sync_opps", "get_pendding_opps_since"], "snapshot": ["NodeDrive::storage_data_disk", "write_value", "write_key", "update_key", "write_new_key_value", "get_key_disk_size", "create_db_from_file_name", "ValueStatus::to_le_bytes"], "http": ["process_commands"], "election": ["election_eval", "start_election", "start_new_election", "election_win", "Databases::get_role", "Databases::is_eligible", "Databases::is_primary", "From<usize>@ClusterRole::from"], "store": STORE_FNS, "security": SECURITY_FNS, "pending": ["ReplicationMessage::new", "ReplicationMessage::ack", "ReplicationMessage::replicated", "ReplicationMessage::is_full_acknowledged",
+        units=["store", "consensus", "security", "ids", "oplog", "pending", "parser", "sessions", "http", "election", "snapshot", "sync", "listing"],
+        reachable={"listing": ["Database::list_keys", "filter_system_keys", "get_function_by_pattern", "starts_with", "ends_with", "contains", "Database::list_conflicts_keys",
+                               "Database::has_pendding_conflict", "Database::register_arbiter"], "sync": ["make_create_db_command", "get_full_sync_opps", "get_pendding_opps_since"], "snapshot": ["NodeDrive::storage_data_disk", "write_value", "write_key", "update_key", "write_new_key_value", "get_key_disk_size", "create_db_from_file_name", "ValueStatus::to_le_bytes"], "http": ["process_commands"], "election": ["election_eval", "start_election", "start_new_election", "election_win", "Databases::get_role", "Databases::is_eligible", "Databases::is_primary", "From<usize>@ClusterRole::from"], "store": STORE_FNS, "security": SECURITY_FNS, "pending": ["ReplicationMessage::new", "ReplicationMessage::ack", "ReplicationMessage::replicated", "ReplicationMessage::is_full_acknowledged",
                    "ReplicationMessage::count_replication", "ReplicationMessage::count_acknowledged", "ReplicationMessage::get_copy", "Databases::register_pending_opp",
                    "Databases::acknowledge_pending_opp", "Databases::get_pending_opp_copy"],
                    "parser": PARSER_FNS, "sessions": ["Database::inc_connections", "Database::dec_connections", "Database::connections_count", "release_previous_db",
